@@ -9,9 +9,11 @@ reg("C21",
     bound="quick: {LL_CONNECTION_UPDATE_IND, LL_CHANNEL_MAP_REQ, LL_PHY_UPDATE_IND after LL_PHY_REQ/RSP} x latency {0,1,3} x k {0,1,5} x "
           "delta {-32768,-3,-2,-1,0,1,2,3,6,7,32767} x traffic {none, LL_PING_REQ, ATT Read Request} x all 2^8 received/missed patterns, plus receive "
           "ring positions 1..24 (LL_PING_REQ exchanges before) x delta {2,3,7} x {3 ATT Write Commands of 27 bytes, ATT Read}; peripheral latency "
-          "configurations default and strict.  thorough: latency {0,1,2,3,7} x k {0,1,2,5} x 16 deltas (adds -32767,4,5,9,32766) x 6 traffic kinds "
+          "configurations default and strict; plus 'connection ends while the procedure is pending': 3 procedures x end {LL_TERMINATE_IND then silence, supervision "
+          "timeout by misses: delta {30,33}; local disconnect(): delta {6,7}} -> advertising -> second CONNECT_IND (interval 36, hop 7, channels 0..19) x all 2^7 "
+          "patterns of 8 events with the first one received, then received events until the old instant is 3 events behind, LL_PING_REQ.  thorough: latency {0,1,2,3,7} x k {0,1,2,5} x 16 deltas (adds -32767,4,5,9,32766) x 6 traffic kinds "
           "(adds 3 write commands, ping / ATT in the same event as the procedure PDU) x all 2^10 patterns, ring positions 1..64 x all 2^8 patterns, "
-          "configurations default, strict, strict_plus",
+          "configurations default, strict, strict_plus; second-connection product with latency {0,1,3} x k {0,1,5} x delta {30,33,40,100,32766} resp. {6,7,9,40}",
     units=[dict(src="harness/C21_instant.cpp", link_ll=True,
                 variants=[dict(name="default", defs=["C21_LATCFG=0"]),
                           dict(name="strict", defs=["C21_LATCFG=1"]),
@@ -33,6 +35,10 @@ reg("C21",
         "LL_PHY_UPDATE_IND carries LE 2M in both directions (the callback's transmit/receive naming is not judged)",
         "the position of the deferred PDU in the receive ring is varied by 3-byte LL_PING_REQ exchanges; the harness reads the private member "
         "defered_ll_control_pdu_ only to name the mechanism of an already failed oracle (signature pending-procedure-overwritten-by-received-data)",
+        "second connection (after the first one ended with a procedure still waiting for its instant; a LL_TERMINATE_IND received while a procedure is pending is "
+        "not processed before the instant, so the central just goes silent after it): every event uses interval / channel map / hop / PHY of the second CONNECT_IND, "
+        "no connection_changed or radio_set_phy happens, a LL_PING_REQ is answered within 6 received events; any failure there is reported as "
+        "pending-procedure-survives-connection-end:<procedure>",
         "default buffer_sizes<61,61>, ATT MTU 23; no encryption; central keeps SN/NESN and retransmits what was not acknowledged",
     ],
     design_ref="3/C21")
